@@ -63,6 +63,17 @@ only guards and forwards to a private recursive worker (`_trampoline`), frame fo
 loop sources of unknown provenance end UNDECIDED (a filtered comprehension as loop source is read as loop + condition:
 `elem_class_filtered`).  New obligation clause in append_last: an exit of the parent setter that does nothing when the given
 parent already is the task's parent is refuted (re-appending a member must move it last).
+
+Round 4: the recursive WBS search is DISCOVERED (`_find_search`: WBS.__remove, or the self-recursive function WBS.remove calls
+with its argument and the sentinel; parameter roles taken from that call), so it may be renamed / moved to module level / made
+static / take its parameters in another order - the mutator set `ALLM` is rebuilt per run; remove() may hand back the membership
+test or a result flag (`found = task in list ... return found`); link-list append through a local grown in straight-line code
+(`_grown_local`); sort: one sorted() per branch held in a local, nested `def` key functions, `clear(); extend(x)` == `[:] = x`
+(`_fold_clear_extend`, also reorder); `_attach/_detach` as one flat loop over `[self] + <descendants>`; dependency setters accept
+`_unique_tasks(<argument>)` as the given tasks (F37).  New clauses: shared_list_stays_shared (4) `_to_list` builds a new list on
+every path (returning a facade's backing list / the facade itself is refuted: setters would clear the list they iterate);
+remove() returning the negated membership; link operators reading the other relation; a stored dependency list in another order.
+Not followed: work handed on as a callable (`helper(query, lambda t: self.remove(t))`) ends UNDECIDED (`A.deferred_work`).
 """
 from __future__ import annotations
 
@@ -525,6 +536,45 @@ MUTATORS_FACADE = ['task._ChildrenList.append', 'task._ChildrenList.remove', 'ta
                    'task._ImmutableTaskList.__lshift__', 'task._ImmutableTaskList.__rshift__']
 MUTATORS_WBS = ['wbs.WBS.roots.setter', 'wbs.WBS.remove', 'wbs.WBS.__remove', 'wbs.WBS.remove_all', 'wbs.WBS.__floordiv__']
 ALLM = MUTATORS_TASK + MUTATORS_FACADE + MUTATORS_WBS
+SEARCH_DEFAULT = 'wbs.WBS.__remove'
+
+
+def _find_search(a):
+    """the recursive search behind WBS.remove and which of its parameters is the searched task / the visited task:
+    (function, task parameter, visited parameter).  Normally the private method WBS.__remove(task, current); a refactoring may
+    have moved it (module level, other name, other parameter order): then it is the self-recursive function WBS.remove calls
+    with its own argument and the sentinel root"""
+    prog = a.prog
+    if prog.has_func(SEARCH_DEFAULT):
+        g = prog.func(SEARCH_DEFAULT)
+        if len(g.params) == 3:
+            return g, g.params[1], g.params[2]
+    if not prog.has_func('wbs.WBS.remove'):
+        return None
+    f = prog.func('wbs.WBS.remove')
+    for ci in a.cg.calls_in(f):
+        if ci.kind != 'call' or not isinstance(ci.node, ast.Call):
+            continue
+        tg = [t for t in ci.targets if t is not None]
+        if len(tg) != 1 or tg[0].qual in ALLM or tg[0].module.name not in ('wbs', 'task'):
+            continue
+        g = tg[0]
+        if not any(g in x.targets for x in a.cg.calls_in(g)):
+            continue
+        ps = g.params[1:] if g.kind in ('method', 'getter', 'setter') else list(g.params)
+        args = facts.bound_args(ci.node, g)
+        if len(ps) != 2 or len(args) != 2 or any(x is None for x in args):
+            continue
+        tp = cur = None
+        for prm, arg in zip(ps, args):
+            x = Expander(prog, f, a.typer).expand(arg, cfg_of(f).node_containing(arg))
+            if isinstance(x, ast.Name) and len(f.params) > 1 and x.id == f.params[1]:
+                tp = prm
+            elif isinstance(x, ast.Attribute) and x.attr == ROOT and isinstance(x.value, ast.Name) and x.value.id == f.self_name:
+                cur = prm
+        if tp and cur:
+            return g, tp, cur
+    return None
 
 
 class A:
@@ -539,6 +589,19 @@ class A:
         self._x = {}
         self._ev = {}
         self.owner_attr = {}
+        self.uniq_ok = False
+        ALLM[:] = MUTATORS_TASK + MUTATORS_FACADE + MUTATORS_WBS
+        self.search = _find_search(self)        # (function, task parameter, visited parameter) or None
+        if self.search is not None and self.search[0].qual != SEARCH_DEFAULT:
+            ALLM[:] = [self.search[0].qual if q == SEARCH_DEFAULT else q for q in ALLM]
+
+    def search_args(self, call):
+        """(argument for the searched task, argument for the visited task) of a call of the search function"""
+        g, tp, cur = self.search
+        ps = g.params[1:] if g.kind in ('method', 'getter', 'setter') else list(g.params)
+        args = facts.bound_args(call, g)
+        m = dict(zip(ps, args))
+        return m.get(tp), m.get(cur)
 
     def X(self, f) -> Expander:
         if f.qual not in self._x:
@@ -621,10 +684,36 @@ class A:
     def absent(self, o, f, node, construct, msg):
         """a required effect was not found in f: a violation - unless f hands work to a helper the rule does not follow"""
         h = self.opaque_helpers(f)
+        d = self.deferred_work(f)
         if h:
             o.undecided(f, node, construct, msg + f" - but part of the work is done by {', '.join(h)}, which this rule does not follow")
+        elif d:
+            o.undecided(f, node, construct, msg + f" - but the function passes `{src(d[0])[:60]}` on as a callable; what the callee does "
+                                                  f"with it is not followed")
         else:
             o.refute(f, node, construct, msg)
+
+    def deferred_work(self, f):
+        """callables that f hands to somebody else (a lambda / nested def containing calls, or a bound method of the package passed
+        as an argument): relation effects may happen when the receiver calls them"""
+        out = []
+        for n in ast.walk(f.node):
+            if n is f.node:
+                continue
+            if isinstance(n, (ast.Lambda, ast.FunctionDef)) and any(isinstance(x, ast.Call) for x in ast.walk(n)):
+                fn = self.prog.func_of_node(n)
+                try:
+                    changes = fn is None or bool(self.events(fn))
+                except Exception:
+                    changes = True
+                if changes:     # a key function that only reads attributes is not deferred work
+                    out.append(n)
+            elif isinstance(n, ast.Call):
+                for x in list(n.args) + [k.value for k in n.keywords]:
+                    if isinstance(x, ast.Attribute) and isinstance(x.value, ast.Name) and x.value.id == f.self_name and \
+                            self.prog.find_method(f.cls, unmangle(x.attr)) is not None if f.cls else False:
+                        out.append(x)
+        return out
 
     def must_pass(self, o, f, evs, noop_nodes, what):
         """every accepted path (entry to a normal exit) meets one of the events, except the documented no-op exits"""
@@ -854,6 +943,24 @@ def _check_remove_shape(a: A, o, f, owner_prop, live_ok: bool):
     noops = []
     for r in returns_of(f):
         rn = cfg.node_of(r)
+        # `return found` with `found = task in list`: the membership test itself is handed back (True exactly after a removal)
+        rv, rpol = strip_not(a.xp(f, r.value, rn), True) if r.value is not None else (None, True)
+        if isinstance(rv, ast.IfExp) and isinstance(const_of(rv.body), bool) and isinstance(const_of(rv.orelse), bool) and \
+                const_of(rv.body) != const_of(rv.orelse):
+            # a result flag: `res = False; if task in list: ...; res = True; return res`
+            tst, tpol = strip_not(rv.test, True)
+            rv, rpol = tst, (tpol == const_of(rv.body)) == rpol
+        elif rv is not None and match("bool($x)", rv):
+            rv, rpol = strip_not(match("bool($x)", rv)['x'], rpol)
+        mv = _membership_atom(a, f, rv, t, owner_rel) if rv is not None else None
+        if mv is not None:
+            if mv != rpol:
+                o.refute(f, r, r, f"{what}: returns `{src(r.value)}`, i.e. True when the task was NOT in the list; documented: True after "
+                                  f"a removal, False for a non-member")
+                bad = True
+            else:
+                noops.append(rn)
+            continue
         atoms = path_atoms(a, f, rn)
         notmember = any(_membership_atom(a, f, at, t, owner_rel) is not None and
                         (_membership_atom(a, f, at, t, owner_rel) != p) for at, p, _ in atoms)
@@ -863,7 +970,10 @@ def _check_remove_shape(a: A, o, f, owner_prop, live_ok: bool):
                 o.refute(f, r, r, f"{what}: returns `{src(r)}` when the task is not in the list; documented: False")
                 bad = True
         elif cfg.can_reach(ev.cn, rn) and const_of(r.value) is not True:
-            o.refute(f, r, r, f"{what}: returns `{src(r)}` after removing the task; documented: True (WBS.remove relies on it)")
+            if r.value is None or isinstance(r.value, ast.Constant):
+                o.refute(f, r, r, f"{what}: returns `{src(r)}` after removing the task; documented: True (WBS.remove relies on it)")
+            else:
+                o.undecided(f, r, r, f"{what}: cannot tell that `{src(r)}` is True after the removal (WBS.remove relies on it)")
             bad = True
     if bad or not a.must_pass(o, f, [ev], noops, what):
         return
@@ -946,6 +1056,10 @@ def _link_append(a: A, o, f, ev, rel, t, what):
             o.undecided(f, st, st, f"{what}: augmented assignment of an unexpected value")
         return
     term = norm_list(v)
+    if isinstance(v, ast.Name):
+        lt = _grown_local(a, f, v.id, ev.cn)
+        if lt is not None:
+            term = lt
     if term[0] != 'concat' or len(term[1]) != 2:
         if term[0] == 'lit' or (term[0] == 'filter' and not any(is_task(x) for x in ast.walk(v))):
             o.refute(f, st, st.value, f"{what}: the new list `{src(v)[:60]}` is not old items + [task]")
@@ -981,6 +1095,58 @@ def _link_append(a: A, o, f, ev, rel, t, what):
         return
     if a.must_pass(o, f, [ev], [], what):
         o.site(f, st, f"{src(ev.node)} = {src(v)[:70]}")
+
+
+def _grown_local(a: A, f, name, at):
+    """abstract list term of a local list built in straight-line code before cfg node `at`:
+        L = <init>; L.append(x) | L.insert(0, x) | L.extend(y) | L += y   ->   ('concat', [..])
+    None when the local is edited in any other way, inside a loop, or under other conditions than its definition"""
+    fl, cfg = flow_of(f), cfg_of(f)
+    d = fl.unique_def(name, at)
+    if d is None or d.kind != 'assign' or d.value is None or d.node is None or len(fl.defs_of(name)) != 1:
+        return None
+    base = cfg.conditions(d.node)
+    parts = _parts(a.xp(f, d.value, d.node))
+    steps = []
+    for n in walk_no_nested(f.node):
+        c = None
+        if isinstance(n, ast.Call) and isinstance(n.func, ast.Attribute) and isinstance(n.func.value, ast.Name) and \
+                n.func.value.id == name and n.func.attr in LIST_MUT:
+            c = n
+        elif isinstance(n, ast.AugAssign) and isinstance(n.target, ast.Name) and n.target.id == name:
+            return None         # an augmented assignment is a second definition: defs_of() already said no
+        if c is None:
+            continue
+        cn = cfg.node_containing(c)
+        if cn is None or cfg.enclosing_fors(cn) or cfg.can_reach(cn, cn):
+            return None
+        if not cfg.can_reach(cn, at):
+            if cfg.can_reach(at, cn):
+                continue        # after the use
+            return None
+        if not cfg.dominates(d.node, cn) or not cfg.dominates(cn, at) or cfg.conditions(cn) != base:
+            return None
+        steps.append((cn.id, c, cn))
+    if not steps:
+        return None
+    for _, c, cn in sorted(steps, key=lambda z: z[0]):
+        m = c.func.attr
+        if m == 'append' and len(c.args) == 1:
+            parts = parts + [('lit', [a.xp(f, c.args[0], cn)])]
+        elif m == 'insert' and len(c.args) == 2 and facts.const_num(c.args[0]) == 0:
+            parts = [('lit', [a.xp(f, c.args[1], cn)])] + parts
+        elif m == 'extend' and len(c.args) == 1:
+            parts = parts + _parts(a.xp(f, c.args[0], cn))
+        else:
+            return None
+    # adjacent literals merge
+    out = []
+    for p0 in parts:
+        if out and out[-1][0] == 'lit' and p0[0] == 'lit':
+            out[-1] = ('lit', out[-1][1] + p0[1])
+        else:
+            out.append(p0)
+    return ('concat', out)
 
 
 def _returns_param(a: A, o, f, i, what):
@@ -1030,6 +1196,10 @@ def _rel_plus_other(a: A, o, f, ev, recv_ok, rel, other_i, what):
             return True
         if is_other(s0) and is_rel(s1):
             o.refute(f, st, st.value, f"{what}: new items are put before the old ones")
+            return False
+        if is_other(s1) and isinstance(s0, ast.Attribute) and s0.attr in REL_PROPS and s0.attr != rel and recv_ok(s0.value) and \
+                same(s0.value, a.xp(f, ev.node.value, ev.cn)):
+            o.refute(f, st, st.value, f"{what}: the new `{rel}` are built from the task's `{s0.attr}` instead of its old `{rel}`")
             return False
     if a.is_param(f, v, other_i) or (match("_to_list($x)", v) and a.is_param(f, match("_to_list($x)", v)['x'], other_i)):
         o.refute(f, st, st.value, f"{what}: REPLACES `{rel}` by the operand instead of adding to it")
@@ -1220,14 +1390,18 @@ def delegation_wbs(a: A, ctx):
         # remove
         f = a.fn('wbs.WBS.remove')
         what = 'WBS.remove'
-        search = a.fn('wbs.WBS.__remove')
+        if a.search is None:
+            a.fn(SEARCH_DEFAULT)       # AnchorMissing: the search function cannot be identified
+        search, tp, cur = a.search
+        sname = unmangle(search.name) if search.cls else search.name
         calls = [e for e in a.events(f) if e.kind == 'call' and search in e.ci.targets]
         if not calls:
             a.absent(o, f, f.node, what, f"{what}: does not run the recursive search")
         for e in calls:
             e.used = True
             c = e.node
-            if not (len(c.args) == 2 and a.is_param(f, a.xp(f, c.args[0]), 1) and a.is_self_attr(f, a.xp(f, c.args[1]), ROOT)):
+            ta, ra = a.search_args(c)
+            if not (ta is not None and ra is not None and a.is_param(f, a.xp(f, ta), 1) and a.is_self_attr(f, a.xp(f, ra), ROOT)):
                 o.refute(f, c, c, f"{what}: search called as `{src(c)}`; expected (task, sentinel root)")
             elif path_atoms(a, f, e.cn):
                 o.refute(f, c, c, f"{what}: search is conditional")
@@ -1237,7 +1411,7 @@ def delegation_wbs(a: A, ctx):
 
         # recursive search
         f = search
-        what = 'WBS.__remove'
+        what = f'WBS.{sname}' if search.cls else sname
         # the search may only be an entry point (guard on the task) that hands both arguments on to a private recursive worker
         hop = _trampoline(a, f)
         if hop is not None:
@@ -1248,7 +1422,7 @@ def delegation_wbs(a: A, ctx):
                 a.leftovers(o, f, what)
                 return
             extra = [at for at, pol, _ in path_atoms(a, f, ev0.cn)
-                     if not ((match(f"{f.params[1]} is None", at) and not pol) or (match(f"{f.params[1]} is not None", at) and pol))]
+                     if not ((match(f"{tp} is None", at) and not pol) or (match(f"{tp} is not None", at) and pol))]
             if extra:
                 o.undecided(f, ev0.node, extra[0], f"{what}: the search depends on a condition the rule does not know")
                 a.leftovers(o, f, what)
@@ -1262,7 +1436,14 @@ def delegation_wbs(a: A, ctx):
             a.leftovers(o, f, what)
             f = g
             what = f'WBS.{g.name}'
-        tp, cur = f.params[1], f.params[2]
+            tp, cur = f.params[1], f.params[2]
+        worker = f
+
+        def rec_args(c):
+            """(searched-task argument, visited-task argument) of a recursive call, bound by parameter name"""
+            ps = worker.params[1:] if worker.kind in ('method', 'getter', 'setter') else list(worker.params)
+            m = dict(zip(ps, facts.bound_args(c, worker)))
+            return m.get(tp), m.get(cur)
         direct = [e for e in a.events(f) if e.kind == 'call' and isinstance(e.node, ast.Call) and e.name == 'remove'
                   and any(t.qual == 'task._ChildrenList.remove' for t in e.ci.targets)]
         rec = [e for e in a.events(f) if e.kind == 'call' and f in e.ci.targets]
@@ -1296,13 +1477,13 @@ def delegation_wbs(a: A, ctx):
             e.used = True
             c = e.node
             fo = hn = None
-            if len(c.args) == 2 and isinstance(c.args[1], ast.Name):
-                fo, hn, kind = binding_of(f, c, e.cn, c.args[1].id)
-            if fo is None or not (isinstance(c.args[0], ast.Name) and c.args[0].id == tp):
-                if len(c.args) == 2 and isinstance(c.args[0], ast.Name) and isinstance(c.args[1], ast.Name) and \
-                        (c.args[0].id != tp and c.args[1].id == tp):
+            r_task, r_cur = rec_args(c)
+            if r_task is not None and isinstance(r_cur, ast.Name):
+                fo, hn, kind = binding_of(f, c, e.cn, r_cur.id)
+            if fo is None or not (isinstance(r_task, ast.Name) and r_task.id == tp):
+                if isinstance(r_task, ast.Name) and isinstance(r_cur, ast.Name) and (r_task.id != tp and r_cur.id == tp):
                     o.refute(f, c, c, f"{what}: recursive call `{src(c)}` has its arguments swapped; expected (searched task, child)")
-                elif fo is None and len(c.args) == 2 and isinstance(c.args[1], ast.Name) and c.args[1].id in (cur, tp):
+                elif fo is None and r_task is not None and isinstance(r_cur, ast.Name) and r_cur.id in (cur, tp):
                     o.refute(f, c, c, f"{what}: recursive call `{src(c)}` does not descend into a child of the visited task")
                 else:
                     o.undecided(f, c, c, f"{what}: recursive call `{src(c)}` is not recognised as (searched task, child of the visited task)")
@@ -1353,8 +1534,10 @@ def delegation_remove_all(a: A, ctx):
                 rem = [e for e in a.events(f) if e.kind == 'call' and e.name == 'remove' and isinstance(e.node, ast.Call)
                        and a.is_self(f, e.node.func.value)]
             else:
-                rem = [e for e in a.events(f) if e.kind == 'call' and e.name in ('__remove', 'remove') and isinstance(e.node, ast.Call)
-                       and a.is_self(f, e.node.func.value)]
+                sg = a.search[0] if a.search is not None else None
+                rem = [e for e in a.events(f) if e.kind == 'call' and isinstance(e.node, ast.Call) and
+                       ((sg is not None and sg in e.ci.targets) or
+                        (e.name == 'remove' and isinstance(e.node.func, ast.Attribute) and a.is_self(f, e.node.func.value)))]
             if not rem:
                 a.absent(o, f, f.node, what, f"{what}: never removes a task through the single-task removal")
                 a.leftovers(o, f, what)
@@ -1364,7 +1547,11 @@ def delegation_remove_all(a: A, ctx):
             for e in rem:
                 e.used = True
                 c = e.node
-                arg0 = c.args[0] if c.args else None
+                is_search = a.search is not None and a.search[0] in e.ci.targets
+                arg0, root_arg = a.search_args(c) if is_search else (c.args[0] if c.args else None, None)
+
+                def from_root():
+                    return root_arg is not None and a.is_self_attr(f, a.xp(f, root_arg, e.cn), ROOT)
                 fo = enclosing_for_binding(f, e.cn, arg0.id) if isinstance(arg0, ast.Name) else None
                 if fo is None and isinstance(arg0, ast.Name):
                     # the removal sits inside a comprehension over the matches
@@ -1375,7 +1562,7 @@ def delegation_remove_all(a: A, ctx):
                                 any(x is c for x in ast.walk(comp)):
                             fo = ast.For(target=g.target, iter=g.iter, body=[], orelse=[])
                             in_elt_or_first_if = any(x is c for x in ast.walk(comp.elt)) or (g.ifs and any(x is c for x in ast.walk(g.ifs[0])))
-                            if e.name == '__remove' and not (len(c.args) == 2 and a.is_self_attr(f, a.xp(f, c.args[1], e.cn), ROOT)):
+                            if is_search and not from_root():
                                 fo = None
                             elif not in_elt_or_first_if:
                                 o.refute(f, c, comp, f"{what}: some matches are not removed (the removal sits behind another filter)")
@@ -1397,7 +1584,7 @@ def delegation_remove_all(a: A, ctx):
                         o.undecided(f, c, c, f"{what}: `{src(c)}` is not inside a loop over the matched tasks the rule can follow")
                     good = False
                     continue
-                if e.name == '__remove' and not (len(c.args) == 2 and a.is_self_attr(f, a.xp(f, c.args[1], e.cn), ROOT)):
+                if is_search and not from_root():
                     o.refute(f, c, c, f"{what}: the search for a match does not start at the sentinel root")
                     good = False
                     continue
@@ -1498,6 +1685,9 @@ def is_arg(a: A, f, e, at, i=1, depth=0):
     m = match("_to_list($x)", e)
     if m:
         return is_arg(a, f, m['x'], at, i, depth + 1)
+    m = match("_unique_tasks($x)", e) if getattr(a, 'uniq_ok', False) else None
+    if m:
+        return is_arg(a, f, m['x'], at, i, depth + 1)      # links: the given tasks, each once, in the order of first occurrence
     t = norm_list(e)
     if t[0] == 'filter' and not t[3]:
         return is_arg(a, f, t[1], at, i, depth + 1)
@@ -1764,6 +1954,13 @@ def dependency_setters(a: A, ctx):
                "of every new element", floor=6)
 
     def run(o):
+        a.uniq_ok = True        # a dependency list holds every task once: `_unique_tasks(<the argument>)` is still `the given tasks`
+        try:
+            run_dep(o)
+        finally:
+            a.uniq_ok = False
+
+    def run_dep(o):
         for rel, (FLD, MIR) in DEP.items():
             f = a.fn(f'task.Task.{rel}.setter')
             what = f'{rel} setter'
@@ -1798,12 +1995,19 @@ def dependency_setters(a: A, ctx):
                 pass
             elif match("_to_list($x)", v) and is_arg(a, f, v, vn) and _builds_new_list(a.fn('task._to_list')):
                 pass        # _to_list builds a new list on every path: storing it is storing a private copy
+            elif match("_unique_tasks($x)", v) and is_arg(a, f, v, vn) and a.prog.has_func('task._unique_tasks') and \
+                    _fresh_returns(a.fn('task._unique_tasks')):
+                pass        # likewise: a new list of the given tasks, each once
             elif is_arg(a, f, v, vn):
                 o.refute(f, st, st.value, f"{what}: stores the caller's list object itself (no copy): later edits of that list by the "
                                           f"caller change the task's {rel} behind the mirror updates")
                 bad = True
             elif t[0] in ('concat',):
                 o.refute(f, st, st.value, f"{what}: stores `{src(v)[:70]}`: not exactly the given tasks")
+                bad = True
+            elif classify_list(a, f, v, vn)[0] == 'arg-reordered':
+                o.refute(f, st, st.value, f"{what}: stores `{src(v)[:70]}`: the given tasks in another order "
+                                          f"({classify_list(a, f, v, vn)[1]})")
                 bad = True
             elif t[0] == 'ref' and isinstance(v, ast.Call) and isinstance(v.func, ast.Name) and v.func.id in ORDER_BREAKERS + ('tuple',):
                 o.refute(f, st, st.value, f"{what}: stores `{src(v)[:70]}`: order / list type of the given tasks is lost")
@@ -1924,11 +2128,33 @@ def dependency_setters(a: A, ctx):
     ctx.guarded(o, run)
 
 
+def _fresh_returns(fn) -> bool:
+    """every return of fn yields a list created inside fn: a literal / comprehension / list(..), or a local that is only ever
+    bound to such a value (`res = []; ... res.append(x); return res`)"""
+    rets = returns_of(fn)
+    if not rets:
+        return False
+
+    def fresh(e):
+        return isinstance(e, (ast.List, ast.ListComp)) or bool(match("sorted($*x)", e)) or \
+            (isinstance(e, ast.Call) and isinstance(e.func, ast.Name) and e.func.id == 'list' and len(e.args) <= 1 and not e.keywords)
+    for r in rets:
+        v = r.value
+        if v is None:
+            return False
+        if isinstance(v, ast.Name) and v.id not in fn.params:
+            ds = flow_of(fn).defs_of(v.id)
+            if ds and all(d.kind == 'assign' and d.value is not None and fresh(d.value) for d in ds):
+                continue
+            return False
+        if not fresh(v):
+            return False
+    return True
+
+
 def _builds_new_list(fn) -> bool:
     """every return of fn yields a list object created by that very expression (literal, comprehension, list(..))"""
-    rets = returns_of(fn)
-    return bool(rets) and all(r.value is not None and (isinstance(r.value, (ast.List, ast.ListComp)) or match("list($x)", r.value))
-                              for r in rets)
+    return _fresh_returns(fn)
 
 
 def _mirror_conditions(a: A, f, inner, v, MIR, want_present, e):
@@ -2240,6 +2466,20 @@ def _same_parent_atom(a: A, f, at, pol, P):
     return None
 
 
+def _descendant_methods(a: A) -> Set[str]:
+    """(mangled) names of the Task methods whose result the `all_children` getter wraps: `self.M()` lists the descendants"""
+    out = set()
+    if a.prog.has_func('task.Task.all_children'):
+        g = a.fn('task.Task.all_children')
+        for r in returns_of(g):
+            if r.value is not None and isinstance(r.value, ast.Call) and len(r.value.args) == 1:
+                inner = r.value.args[0]
+                if isinstance(r.value.func, ast.Name) and r.value.func.id == '_ImmutableTaskList' and isinstance(inner, ast.Call) \
+                        and not inner.args and isinstance(inner.func, ast.Attribute) and a.is_self(g, inner.func.value):
+                    out.add(inner.func.attr)
+    return out
+
+
 def _subtree_member(a: A, f, recv, cn):
     """is the receiver self or an element of a list made of self / self.children / self.all_children: 'yes' | 'no' | '?'"""
     if a.is_self(f, recv):
@@ -2257,6 +2497,9 @@ def _subtree_member(a: A, f, recv, cn):
         if p[0] in ('ref', 'filter') and not (p[0] == 'filter' and p[3]):
             s0 = list_source(p)
             s0 = resolve(f, s0, at)[0] if s0 is not None else None
+            if isinstance(s0, ast.Call) and not s0.args and not s0.keywords and isinstance(s0.func, ast.Attribute) and \
+                    a.is_self(f, s0.func.value) and s0.func.attr in _descendant_methods(a):
+                return True     # the method behind the all_children getter: the descendants of self
             return s0 is not None and isinstance(s0, ast.Attribute) and a.is_self(f, s0.value) and \
                 s0.attr in ('children', '_Task__children', 'all_children')
         if p[0] == 'concat':
@@ -2265,6 +2508,22 @@ def _subtree_member(a: A, f, recv, cn):
     t = norm_list(it)
     if part_ok(t):
         return 'yes'
+    OUTSIDE = ('all_parents', 'parent', '_Task__parent', 'predecessors', 'successors', 'all_predecessors', 'all_successors',
+               '_Task__predecessors', '_Task__successors', '_Task__get_all_parents', '_Task__get_all_predecessors',
+               '_Task__get_all_successors')
+
+    def outside(p):
+        if p[0] == 'concat':
+            return any(outside(x) for x in p[1])
+        if p[0] in ('ref', 'filter'):
+            s0 = list_source(p) if not (p[0] == 'filter' and p[3]) else p[1]
+            s0 = resolve(f, s0, at)[0] if s0 is not None else None
+            if isinstance(s0, ast.Call) and isinstance(s0.func, ast.Attribute) and not s0.args:
+                s0 = s0.func
+            return isinstance(s0, ast.Attribute) and a.is_self(f, s0.value) and s0.attr in OUTSIDE
+        return False
+    if outside(t):
+        return 'no'         # the ancestors / linked tasks of self are positively not part of its subtree
     return '?'
 
 
@@ -2365,13 +2624,16 @@ def _value_variants(f, e, at):
     (`if c: i = X else: i = Y`) yields one variant per assignment"""
     if isinstance(e, ast.Name) and at is not None:
         ds = flow_of(f).reaching(e.id, at)
+        if ds and all(isinstance(d.stmt, ast.FunctionDef) and d.node is not None for d in ds):
+            return [(d.stmt, d.node) for d in ds]        # `def k(x): ...` (one per branch): a named function value
         if len(ds) > 1 and all(d.kind == 'assign' and d.value is not None and d.node is not None for d in ds):
             out = []
             for d in ds:
-                v, n, _ = resolve(f, d.value, d.node)
-                out.append((v, n))
+                out += _value_variants(f, d.value, d.node)
             return out
-    v, n, _ = resolve(f, e, at)
+    v, n, hops = resolve(f, e, at)
+    if hops and isinstance(v, ast.Name):
+        return _value_variants(f, v, n)
     return [(v, n)]
 
 
@@ -2533,6 +2795,36 @@ def _full_slice_store(a: A, f, w) -> bool:
         t.slice.upper is None and t.slice.step is None
 
 
+def _fold_clear_extend(a: A, f, ws):
+    """`L.clear(); L.extend(X)` (both unconditional relative to each other, nothing else done to L in between) replaces the
+    contents of the shared list in place exactly like `L[:] = X`: the pair is folded into one synthetic slice-store event"""
+    cfg = cfg_of(f)
+    clears = [e for e in ws if e.w.kind == 'mutate:clear']
+    exts = [e for e in ws if e.w.kind == 'mutate:extend' and isinstance(e.w.node, ast.Call) and len(e.w.node.args) == 1]
+    out = list(ws)
+    for c in clears:
+        for x in exts:
+            if x not in out or c not in out:
+                continue
+            if not (cfg.dominates(c.cn, x.cn) and cfg.conditions(c.cn) == cfg.conditions(x.cn) and cfg.enclosing_fors(c.cn) ==
+                    cfg.enclosing_fors(x.cn)):
+                continue
+            mid = cfg.between(c.cn, x.cn)
+            if any(o2.cn is not None and o2.cn.id in mid for o2 in ws if o2 is not c and o2 is not x):
+                continue
+            from sa.effects import Write
+            call = x.w.node
+            tgt = ast.Subscript(value=call.func.value, slice=ast.Slice(lower=None, upper=None, step=None), ctx=ast.Store())
+            node = ast.copy_location(ast.Assign(targets=[tgt], value=call.args[0]), call)
+            ast.fix_missing_locations(node)
+            w = Write(x.w.field, x.w.root, node, f, 'subscript-store', x.w.recv, x.w.recv_type)
+            ev = Ev('write', node, x.cn, x.name, w=w)
+            c.used = x.used = True
+            out[out.index(x)] = ev
+            out.remove(c)
+    return out
+
+
 def _publish_ok(a: A, o, f, e, what):
     """the publish callback receives the facade's current list"""
     c = e.node
@@ -2692,8 +2984,19 @@ def _attr_getter(e, xname):
     return None
 
 
+def _as_lambda(fn):
+    """`def k(x): [docstring] return E`  ->  `lambda x: E`  (anything else is returned unchanged)"""
+    if isinstance(fn, ast.FunctionDef) and not fn.decorator_list:
+        body = [st for st in fn.body if not (isinstance(st, ast.Expr) and isinstance(st.value, ast.Constant))]
+        if len(body) == 1 and isinstance(body[0], ast.Return) and body[0].value is not None and \
+                not fn.args.vararg and not fn.args.kwarg and not fn.args.kwonlyargs:
+            return ast.Lambda(args=fn.args, body=body[0].value)
+    return fn
+
+
 def _key_kind(keyfn, key_param):
     """'single' | 'multi' | 'other'"""
+    keyfn = _as_lambda(keyfn)
     if not (isinstance(keyfn, ast.Lambda) and len(keyfn.args.args) == 1):
         return 'other'
     x = keyfn.args.args[0].arg
@@ -2716,7 +3019,8 @@ def _helper_key_kinds(a: A, f, call, key_param):
     against the helper's own parameter that receives `key`.   ('ok', 'single+multi') | ('refute', msg) | None (not followed)"""
     tg = None
     for ci in a.cg.calls_in(f):
-        if ci.node is call and len(ci.targets) == 1 and ci.targets[0] is not None and ci.kind == 'call':
+        if isinstance(ci.node, ast.Call) and (ci.node is call or same(ci.node.func, call.func)) and len(ci.targets) == 1 and \
+                ci.targets[0] is not None and ci.kind == 'call':
             tg = ci.targets[0]
     if tg is None or not isinstance(tg.node, (ast.FunctionDef,)):
         return None
@@ -2734,15 +3038,18 @@ def _helper_key_kinds(a: A, f, call, key_param):
         return None
     kinds = []
     for r in rets:
-        v = resolve(tg, r.value, cfg_of(tg).node_of(r))[0] if r.value is not None else None
-        k = _key_kind(v, hp)
-        if k == 'other':
-            g = _attr_getter(v.body, v.args.args[0].arg) if isinstance(v, ast.Lambda) and len(v.args.args) == 1 else None
-            if g is not None:
-                return ('refute', f"the key function built by {tg.name} reads `{src(g)}` instead of the attribute named by `{hp}`")
+        if r.value is None:
             return None
-        if k not in kinds:
-            kinds.append(k)
+        for v, _vn in _value_variants(tg, r.value, cfg_of(tg).node_of(r)):
+            v = _as_lambda(v)
+            k = _key_kind(v, hp)
+            if k == 'other':
+                g = _attr_getter(v.body, v.args.args[0].arg) if isinstance(v, ast.Lambda) and len(v.args.args) == 1 else None
+                if g is not None:
+                    return ('refute', f"the key function built by {tg.name} reads `{src(g)}` instead of the attribute named by `{hp}`")
+                return None
+            if k not in kinds:
+                kinds.append(k)
     # falling off the end would hand None to sorted(): then the natural order of tasks decides
     cfg = cfg_of(tg)
     if any(p.ast is not None and not isinstance(p.ast, ast.Return) or p.kind == 'branch' for p in cfg.exit.pred):
@@ -2764,11 +3071,19 @@ def sort_stable(a: A, ctx):
         evs = a.events(f)
         pubs = [e for e in evs if e.kind == 'publish']
         pub_ok = all([_publish_ok(a, o, f, e, what) for e in pubs])
-        ws = [e for e in evs if e.kind == 'write' and e.w.field == LIST and a.is_self(f, e.w.recv)]
+        ws = _fold_clear_extend(a, f, [e for e in evs if e.kind == 'write' and e.w.field == LIST and a.is_self(f, e.w.recv)])
         sorts = []
         bad = not pub_ok
+        jobs = []
         for e in ws:
             e.used = True
+            w = e.w
+            if (w.kind == 'store' and isinstance(w.node, ast.Assign)) or _full_slice_store(a, f, w):
+                # a local holding the sorted list, assigned once per branch of the key-type test: one sort per branch
+                jobs += [(e, vr, vn if vn is not None else e.cn) for vr, vn in _value_variants(f, w.node.value, e.cn)]
+            else:
+                jobs.append((e, None, e.cn))
+        for e, vraw, vn in jobs:
             w = e.w
             if w.kind == 'mutate:reverse':
                 o.refute(f, w.node, w.node, f"{what}: the list is reversed as a separate step: equal keys end up in reversed order, a "
@@ -2776,7 +3091,7 @@ def sort_stable(a: A, ctx):
                 bad = True
                 continue
             if (w.kind == 'store' and isinstance(w.node, ast.Assign)) or _full_slice_store(a, f, w):
-                v = a.xp(f, w.node.value, e.cn)
+                v = a.xp(f, vraw, vn)
                 call = v
                 if any(isinstance(n, ast.Call) and getattr(n.func, 'id', '') == 'reversed' for n in ast.walk(v)):
                     o.refute(f, w.node, w.node.value, f"{what}: `reversed(...)` of a sorted list is not a stable descending sort")
@@ -2822,7 +3137,7 @@ def sort_stable(a: A, ctx):
                 o.refute(f, w.node, call, f"{what}: the `reverse` flag is ignored by this sort (no reverse={REV})")
                 bad = True
                 continue
-            rv_r, _, _ = resolve(f, rv, e.cn)
+            rv_r, _, _ = resolve(f, rv, vn)
             if not (isinstance(rv_r, ast.Name) and rv_r.id == REV) and not match(f"bool({REV})", rv_r):
                 o.refute(f, w.node, rv, f"{what}: sorts with reverse=`{src(rv_r)}` instead of the caller's flag")
                 bad = True
@@ -2835,7 +3150,8 @@ def sort_stable(a: A, ctx):
             # the key function: a lambda, a local holding one (one assignment per branch of a type test counts per branch),
             # or the result of a helper that builds it from `key`
             kinds, kbad = [], False
-            for kf_r, kf_n in _value_variants(f, kf, e.cn):
+            for kf_r, kf_n in _value_variants(f, kf, vn):
+                kf_r = _as_lambda(kf_r)
                 kk = _key_kind(kf_r, KEY)
                 if kk == 'other' and isinstance(kf_r, ast.Call):
                     hk = _helper_key_kinds(a, f, kf_r, KEY)
@@ -2955,7 +3271,7 @@ def reorder_effect(a: A, ctx):
         pubs = [e for e in evs if e.kind == 'publish']
         if not all([_publish_ok(a, o, f, e, what) for e in pubs]):
             return
-        ws = [e for e in evs if e.kind == 'write' and e.w.field == LIST and a.is_self(f, e.w.recv)]
+        ws = _fold_clear_extend(a, f, [e for e in evs if e.kind == 'write' and e.w.field == LIST and a.is_self(f, e.w.recv)])
         stores = []
         for e in ws:
             e.used = True
@@ -3556,6 +3872,7 @@ def frame(a: A, ctx):
             f0 = a.fn(q)
             ok = True
             n = 0
+            a.uniq_ok = q in ('task.Task.predecessors.setter', 'task.Task.successors.setter')
             for f, e, via in all_events(f0):
                 n += 1
                 # inside a followed helper the parameters stand for whatever the mutator passed: a receiver the table cannot
@@ -3583,7 +3900,8 @@ def frame(a: A, ctx):
                                                     f"{f0.name if via else 'this mutator'} is documented to change")
                         ok = False
                     elif rc not in allowed[e.w.field]:
-                        verdict(f, e.node, e.node,
+                        # a receiver whose origin the rule cannot name is not a positively identified wrong write
+                        (o.undecided if rc == '?' else verdict)(f, e.node, e.node,
                                 f"{f.name} writes {unmangle(e.w.field)} of `{src(e.w.recv)}` ({rc if rc != '?' else 'a task that is neither self, '
                                 'an element of the argument or of the old list, nor the old / new parent'}); allowed receivers: "
                                 f"{', '.join(sorted(allowed[e.w.field]))}")
@@ -3602,6 +3920,9 @@ def frame(a: A, ctx):
                     recv = e.node.value if e.kind == 'setter' else (
                         e.node.func.value if isinstance(e.node, ast.Call) and isinstance(e.node.func, ast.Attribute) else
                         (e.node.left if isinstance(e.node, ast.BinOp) else None))
+                    if e.kind == 'call' and e.ci.targets and all(t is not None and t.kind in ('static', 'function', 'classmethod')
+                                                                 for t in e.ci.targets):
+                        recv = None     # `Cls.helper(x)` / `helper(x)`: the name before the dot is not a task being changed
                     if recv is not None:
                         root = a.eff.root_of(recv, f)
                         if not (root == 'self' or root.startswith('param:') or
@@ -3610,6 +3931,7 @@ def frame(a: A, ctx):
                                                         f"self / its owner nor an argument (root: {root})")
                             ok = False
             f = f0
+            a.uniq_ok = False
             if n == 0 and not q.endswith('_ImmutableTaskList.__add__'):
                 o.undecided(f, f.node, f.name, f"no relation event found in mutator {f.name}: the analysis lost track of its effect")
                 ok = False
@@ -3677,6 +3999,43 @@ def shared_list(a: A, ctx):
                         o.site(m, w.node, 'in place (element / slice): ' + src(w.node)[:70])
                     else:
                         o.undecided(m, w.node, w.node, f"{cls}.{m.name} changes `_list` with `{w.kind}`")
+        # (4) the argument normaliser never hands out the backing list of a facade: setters clear / refill the shared list while
+        #     they walk the value they were given (`t.children = t.children`)
+        tl = a.fn('task._to_list')
+        leak = False
+        for r in returns_of(tl):
+            v = resolve(tl, r.value, cfg_of(tl).node_of(r))[0] if r.value is not None else None
+            if isinstance(v, ast.Name) and tl.params and v.id == tl.params[0] and \
+                    not any(d.kind != 'param' for d in flow_of(tl).defs_of(v.id)):
+                # the argument itself is handed back: harmless for a plain list / tuple / set of the caller (setters copy), but a
+                # task-list facade would be iterated live
+                plain = False
+                for at, pol in [(x, q) for t0, p0 in cfg_of(tl).conditions(cfg_of(tl).node_of(r)) for x, q in facts.split_conj(t0, p0)]:
+                    at, pol = strip_not(at, pol)
+                    m = match(f"type({v.id}) is $c", at) or match(f"isinstance({v.id}, $c)", at)
+                    if m and pol:
+                        cs = m['c'].elts if isinstance(m['c'], ast.Tuple) else [m['c']]
+                        if all(isinstance(c0, ast.Name) and c0.id in ('list', 'tuple', 'set', 'frozenset') for c0 in cs):
+                            plain = True
+                if plain:
+                    o.undecided(tl, r, r, "_to_list returns the caller's own list object without copying it")
+                else:
+                    o.refute(tl, r, r, f"_to_list returns its argument `{v.id}` itself on a path that task-list objects (x.children, "
+                                       f"x.predecessors ...) can take: a setter handed such an object clears / relinks the live list "
+                                       f"it iterates (`t.children = t.children` empties the children)")
+                leak = True
+                continue
+            if isinstance(v, ast.Attribute) and v.attr in REL_FIELDS:
+                o.refute(tl, r, r, f"_to_list returns `{src(v)}`, the live backing list of a task-list object, instead of a new list: a "
+                                   f"setter that is handed a facade (`t.children = t.children`, `a.predecessors = b.predecessors`) then "
+                                   f"clears / relinks the very list it iterates, and stores an alias of another task's list")
+                leak = True
+        if not leak:
+            if _fresh_returns(tl):
+                o.site(tl, tl.node, '_to_list builds a new list on every path')
+            else:
+                o.undecided(tl, tl.node, '_to_list', "_to_list does not visibly build a new list on every path (a returned argument / "
+                                                     "facade would be iterated while the setter edits it)")
         # (3) every call of the publish callback hands over the facade's own `_list`
         for m in prog.cls('_ChildrenList').methods.values():
             for e in a.events(m):
